@@ -23,7 +23,7 @@ RULE = ('each case = one endpoint (either role) brought to a random connection s
         'MAX_FRAME_SIZE (raised before the streams exist, lowered after) and other limits between the calls; non-trivial = at least one raising call judged; distinct = hash of the '
         'call list with outcomes')
 MINIMA = {'calls_judged': 50000, 'raising_calls_output_checked': 10000, 'lookup_forgotten_judged': 500,
-          'lookup_never_used_judged': 500, 'documented_range_errors': 500, 'setups_with_unacknowledged_data': 500, 'settings_values_beyond_32_bits': 300, 'setups_with_frame_size_limit_raised_and_lowered': 300}
+          'lookup_never_used_judged': 500, 'documented_range_errors': 500, 'setups_with_unacknowledged_data': 500, 'settings_values_beyond_32_bits': 300, 'setups_with_window_size_changed_under_unacknowledged_data': 150, 'header_blocks_within_a_few_octets_of_the_frame_limit': 2000, 'setups_with_frame_size_limit_raised_and_lowered': 300}
 BIG = [2 ** 31 - 1, 2 ** 31, 2 ** 31 + 1, 2 ** 32, 2 ** 64]
 
 
@@ -37,6 +37,7 @@ def run_case(idx, rng, tier, rep):
     h = scen.Hostile(e_client, keep_log=True, handshake=(conn_state != 'idle'))
     t = h.t
     live, closed_rem, forgotten = [], [], []
+    data_sid = []
     raised_mfs = False
     if conn_state != 'idle':
         if rng.random() < 0.3:
@@ -63,6 +64,12 @@ def run_case(idx, rng, tier, rep):
                     if not h.send(wire.build_data(s0, b'd' * 16000)).ok:
                         break
                 rep.count('setups_with_unacknowledged_data')
+                data_sid.append(s0)
+                if rng.random() < 0.4:
+                    # ... and E then shrinks (or grows) its INITIAL_WINDOW_SIZE, acknowledged by the peer: the stream's
+                    # receive window is now negative, zero or tiny while there is data to acknowledge
+                    if t.call('update_settings', {4: rng.choice([0, 0, 1, 10, 70000])}).ok and h.send(wire.build_settings(ack=True)).ok:
+                        rep.count('setups_with_window_size_changed_under_unacknowledged_data')
                 break
         if raised_mfs and rng.random() < 0.7:
             h.send(wire.build_settings([(wire.S_MAX_FRAME_SIZE, 16384)]))
@@ -153,7 +160,12 @@ def run_case(idx, rng, tier, rep):
                          'remote_window', 'next_id', 'data_to_send', 'initiate', 'send_headers_big', 'peer_settings'])
         if op == 'peer_settings':
             # not a call under judgement: the peer changes a limit, so that later calls meet streams created under another one
-            if conn_is_open and rng.random() < 0.5:
+            if conn_is_open and rng.random() < 0.4:
+                # ... or acknowledges E's own changes, so that later calls run under the new local values (an
+                # INITIAL_WINDOW_SIZE of 0 with data already received, a lowered frame or header-list limit)
+                h.send(wire.build_settings(ack=True))
+                rep.count('peer_acknowledgements_between_calls')
+            elif conn_is_open and rng.random() < 0.5:
                 h.send(wire.build_settings([rng.choice([(wire.S_MAX_FRAME_SIZE, rng.choice([16384, 16384, 20000, 32768])),
                                                         (wire.S_INITIAL_WINDOW_SIZE, rng.choice([0, 100, 65535, 100000])),
                                                         (wire.S_MAX_CONCURRENT_STREAMS, rng.choice([0, 1, 100])),
@@ -177,6 +189,22 @@ def run_case(idx, rng, tier, rep):
         elif op == 'send_headers_big':
             # header block at / above the frame-size limit, with and without (valid) priority arguments
             big = [(b'x-big', bytes(rng.randrange(256) for _ in range(64)) * rng.choice([200, 256, 300, 700]))]
+            if rng.random() < 0.5:
+                # encoded block lengths within a few octets of the frame-size limit, where the octets a first frame carries in
+                # front of its fragment (priority fields, promised stream id) decide whether it still fits
+                n = rng.randrange(16384 - 70, 16384 + 12)
+                # (octets whose Huffman code is exactly 8 bits long: the encoded value is as long as the value, whichever
+                # form the encoder picks)
+                big = [(b'x-big', bytes(rng.choice(b'XZ&*,;') for _ in range(64)) * (n // 64) + b'X' * (n % 64))]
+                rep.count('header_blocks_within_a_few_octets_of_the_frame_limit')
+            if not e_client and live and rng.random() < 0.4:
+                res = t.call('push_stream', rng.choice(live), h.e_next, REQ + big)
+                if res.exc is None:
+                    live.append(h.e_next)
+                    h.e_next += 2
+                never_used[:] = prune_never_used(never_used)
+                judge('push_stream', res, False)
+                continue
             if not e_client:
                 # a response or trailers on a stream the server may use (promised ones included)
                 if not live:
@@ -239,7 +267,9 @@ def run_case(idx, rng, tier, rep):
                 rep.violation('C29:out-of-range-argument-accepted:close_connection', 'close_connection(%d, last=%r) succeeded' % (code, last), wit(h, op))
         elif op == 'update_settings':
             k = rng.choice([1, 2, 3, 4, 5, 6, 8, 9, 0xffff])
-            v = rng.choice([0, 1, 2, 100, 16384, 65535, 2 ** 24 - 1, 2 ** 24, 2 ** 31 - 1, 2 ** 31, 2 ** 32 - 1, 2 ** 32, -1, 2 ** 64])
+            v = rng.choice([0, 0, 1, 2, 100, 16384, 65535, 2 ** 24 - 1, 2 ** 24, 2 ** 31 - 1, 2 ** 31, 2 ** 32 - 1, 2 ** 32, -1, 2 ** 64])
+            if rng.random() < 0.25:
+                k = 4
             d = {k: v}
             if rng.random() < 0.2:
                 d[rng.choice([3, 6, 0x99])] = rng.choice([7, 2 ** 32, -1])
@@ -270,6 +300,8 @@ def run_case(idx, rng, tier, rep):
             judge(op, res, False)
         elif op == 'ack':
             n = rng.choice([0, 1, 100, 32768, 40000, 48000, 65535, -1, 2 ** 31, 2 ** 64])
+            if data_sid and rng.random() < 0.5:
+                sid = data_sid[0]
             res = t.call('acknowledge_received_data', n, sid)
             rv = n < 0 or sid <= 0
             # acknowledge_received_data alone may ignore forgotten streams: only never-used ids are judged
